@@ -13,10 +13,10 @@ ID = "C19"
 RULE = ("token strings (v2 with secret length 0,1,38-42,50,60, extra path segments, uuid owned by the remote / "
         "home / a third cluster; legacy [0-9a-z]{39..60}; opaque and near-miss strings), remote ids (5 characters, "
         "empty, long), run through SaltToken (salt, twice), the federation token provider with 0-4 tokens and a "
-        "stub local lookup (prov, provhttp, provnc), keepstore's remote client (keep, keepget), the token "
+        "stub local lookup answering found / 401 / 403 / other statuses / an error without status (prov, provhttp, provnc), keepstore's remote client (keep, keepget), the token "
         "discovery (load) and the legacy saltAuthToken on value-level requests with every placement "
         "(OAuth2/Bearer/Basic header, api_token query parameter, form body, cookie), their combinations, other "
-        "parameters, malformed segments and several content types; a case is non-trivial when it carries at "
+        "parameters (keys and values in canonical and in two alternative percent-encodings), malformed segments and several content types; a case is non-trivial when it carries at "
         "least one token; distinct = distinct case line")
 ASSUMPTIONS = [
     "F9: any 40-character secret counts as 'already salted' (the code has no hex test); the oracle uses the same reading",
@@ -82,10 +82,22 @@ def unhxlist(h):
 
 
 def items_field(items):
-    """items: list of (k, v) or None (= bad segment)"""
+    """items: list of (k, v) or (k, v, sep) or None (= bad segment); sep in '=~^' selects the
+    percent-encoding the Go driver uses for the item (same value-level item)"""
     if not items:
         return "-"
-    return ",".join("!" if it is None else f"{hxc(it[0])}={hxc(it[1])}" for it in items)
+    return ",".join("!" if it is None else f"{hxc(it[0])}{it[2] if len(it) > 2 else '='}{hxc(it[1])}" for it in items)
+
+
+def _style(rng, items):
+    """give some items one of the alternative (valid) percent-encodings"""
+    out = []
+    for it in items:
+        if it is None or rng.random() < 0.75:
+            out.append(it)
+        else:
+            out.append((it[0], it[1], rng.choice("~^")))
+    return out
 
 
 def parse_items(field):
@@ -96,7 +108,7 @@ def parse_items(field):
         if it == "!":
             out.append(None)
         else:
-            k, v = it.split("=")
+            k, v = re.split(r"[=~^]", it)
             out.append((unhx(k), unhx(v)))
     return out
 
@@ -197,9 +209,11 @@ def _lookup(rng, tok, remote, home):
         return f"f.{hxc(u)}.{hxc(a)}"
     if r < 0.6:
         return f"f.{hxc(remote + '-gj3su-' + _rs(rng, B36, 15))}.{hxc(tok)}"
-    if r < 0.9:
+    if r < 0.85:
         return "n"
-    return "e"
+    if r < 0.88:
+        return "x"
+    return "e" + str(rng.choice([403, 403, 403, 400, 404, 422, 500, 502, 503]))
 
 
 def _other_params(rng, n):
@@ -266,7 +280,7 @@ def _gen_request(rng, remote, home, placements=None):
             b.insert(rng.randint(0, len(b)), None)
         r = rng.random()
         T = hx(FORM_CT if r < 0.7 else rng.choice(FORM_VARIANTS + NOT_FORM))
-        B = "f." + items_field(b)
+        B = "f." + items_field(_style(rng, b))
     else:
         r = rng.random()
         if r < 0.5:
@@ -276,7 +290,7 @@ def _gen_request(rng, remote, home, placements=None):
             b = _other_params(rng, rng.choice([1, 2, 3]))
             if rng.random() < 0.05:
                 b.insert(rng.randint(0, len(b)), None)
-            B = "f." + items_field(b)
+            B = "f." + items_field(_style(rng, b))
             T = hx(rng.choice([FORM_CT, FORM_CT, FORM_CT] + FORM_VARIANTS + NOT_FORM))
         else:
             B = "o." + hxc(rng.choice(['{"a":1}', "x", '{"filters":[]}']))
@@ -291,7 +305,7 @@ def _gen_request(rng, remote, home, placements=None):
         aca = (home if rng.random() < 0.8 else remote) + "-gj3su-" + _rs(rng, B36, 15)
         rows.append(f"{hxc(t)}={hxc(aca)}={hxc(user)}")
     D = ",".join(rows) or "-"
-    return method, A, items_field(q), K, T, B, D
+    return method, A, items_field(_style(rng, q)), K, T, B, D
 
 
 def generate(rng, tier):
@@ -538,8 +552,10 @@ def _oracle_salt(t, remote, impl):
 
 
 def _parse_lookup(l):
-    if l in ("n", "e"):
-        return l
+    if l == "n":
+        return "n"
+    if l == "x" or l.startswith("e"):
+        return "e"      # any failure other than 401 (403 scoped token, 5xx, no status)
     u, a = l[2:].split(".")
     return (unhx(u), unhx(a))
 
@@ -575,7 +591,7 @@ def _oracle_prov(case, impl):
         if exp[0] == "tok" and o != exp[1]:
             return f"token {t!r} forwarded as {o!r}, expected {exp[1]!r}"
         if exp[0] == "error":
-            return "local lookup failed but tokens were forwarded"
+            return "the local lookup of a legacy token failed (status other than 401) but tokens were forwarded"
         if exp[0] == "any":
             u, a = table[t]
             want = _expect_one("v2/" + u + "/" + a, remote, None)
@@ -777,6 +793,7 @@ def nontrivial_key(case, impl):
 
 def describe(cases, impl):
     ops, kinds, placements, combos, outcomes, seclen = {}, {}, {}, {}, {}, {}
+    encodings, lookups = {"=": 0, "~": 0, "^": 0}, {}
 
     def tokkind(t):
         c = _classify(t)
@@ -791,6 +808,15 @@ def describe(cases, impl):
     for c, r in zip(cases, impl):
         f = c.split(" ")
         ops[f[0]] = ops.get(f[0], 0) + 1
+        if f[0] in ("legacy", "load"):
+            for fld in (f[4], f[7]) if f[0] == "legacy" else (f[3], f[6]):
+                for ch in "=~^":
+                    encodings[ch] += fld.count(ch)
+        if f[0] in ("prov", "provhttp") and f[2] != "-":
+            for sp in f[2].split(";"):
+                lk = sp.split(":")[1]
+                lk = "found" if lk.startswith("f.") else lk
+                lookups[lk] = lookups.get(lk, 0) + 1
         if r is not None:
             o = f[0] + ":" + " ".join(r.split(" ")[:2] if r.startswith("err") else r.split(" ")[:1])
             outcomes[o] = outcomes.get(o, 0) + 1
@@ -813,7 +839,8 @@ def describe(cases, impl):
             key = "+".join(sorted(set(w for w, _ in pl))) or "none"
             combos[key] = combos.get(key, 0) + 1
     return {"ops": ops, "token_kinds": kinds, "v2_secret_lengths": seclen, "placements": placements,
-            "placement_combinations": combos, "impl_outcomes": outcomes}
+            "placement_combinations": combos, "impl_outcomes": outcomes,
+            "item_encodings": encodings, "local_lookup_outcomes": lookups}
 
 
 def neighbours(case, rng):
